@@ -7,6 +7,7 @@ the implementation, followed by the verdict and the evidence file.
 import hashlib
 import json
 import os
+import shutil
 import re
 import subprocess
 import sys
@@ -143,7 +144,11 @@ class Check:
         d = os.path.join(self.work, name)
         os.makedirs(d, exist_ok=True)
         for f in os.listdir(d):
-            os.unlink(os.path.join(d, f))
+            fp = os.path.join(d, f)
+            if os.path.isdir(fp):
+                shutil.rmtree(fp, ignore_errors=True)
+            else:
+                os.unlink(fp)
         binpath = os.path.join(HARNESS, "target", "release", exe)
         args = [binpath, "--seed", str(self.seed), "--tier", self.tier, "--dir", d] + list(extra_args)
         if self.replay:
